@@ -50,7 +50,7 @@ SIG_BLOCKED = "syncobj.applyLogEntries:applied-with-unsupported-enabled-version"
 SIG_TABLE = "syncobj.loadDumpFile:call-not-newest-version-le-enabled"
 SIG_LOST = "syncobj.loadDumpFile:enabled-version-not-restored"
 SIG_LOST_USER = "syncobj.loadDumpFile:enabled-version-not-restored-with-user-serializer"
-RESTORE_SIGS = (SIG_TABLE, SIG_LOST, SIG_LOST_USER)     # what the C09 plan reports (restored enabled version / name table)
+RESTORE_SIGS = (SIG_TABLE, SIG_LOST, SIG_LOST_USER, "syncobj.loadDumpFile:call-from-install-callback-not-newest-version-le-enabled")     # what the C09 plan reports (restored enabled version / name table)
 SIG_REFUSED = "syncobj.doApplyCommand:supported-version-refused"
 SIG_DOWN = "syncobj.doApplyCommand:enabled-version-decreased"
 # what the C01 plan reports: a node caught up by snapshot / dump does not know the enabled version, or applies entries
@@ -65,6 +65,7 @@ SIG_PAIR = "syncobj.applyLogEntries:old-and-new-code-run-different-method"
 SIG_GUARD = "syncobj.setCodeVersion:unsupported-or-lower-version-accepted"
 SIG_HOOK = "syncobj.doApplyCommand:call-from-version-hook-not-newest-version-le-enabled"
 SIG_HOOK_VER = "syncobj.doApplyCommand:version-hook-sees-other-enabled-version"
+SIG_CB_LOAD = "syncobj.loadDumpFile:call-from-install-callback-not-newest-version-le-enabled"
 
 
 def _spec_self_ver(spec):
@@ -182,12 +183,20 @@ class Runner(object):
         spec = self.specs[self.cur]
         ids, _ = L.extract_ids(self.b)
         for e in ev:
-            if e[0] != "verChanged" or len(e) != 5:
+            if e[0] == "cbOpen" and len(e) == 4:
+                # a (None, LEADER_CHANGED) callback fired inside __loadDumpFile: calls made from it must resolve for the
+                # version getCodeVersion() reports there (the snapshot's)
+                _, cbid, seen, tab = e
+                old, new, where, sig = None, seen, "the LEADER_CHANGED callback %d fired inside __loadDumpFile" % cbid, SIG_CB_LOAD
+                self.cov["m5_load_cb_checked"] += 1
+            elif e[0] == "verChanged" and len(e) == 5:
+                _, old, new, seen, tab = e
+                where, sig = "onCodeVersionChanged(%d, %d)" % (old, new), SIG_HOOK
+                self.cov["m5_checked"] += 1
+                if seen != new:
+                    self._violation(SIG_HOOK_VER, "onCodeVersionChanged(%d, %d) ran while getCodeVersion() was %r" % (old, new, seen), None)
+            else:
                 continue
-            _, old, new, seen, tab = e
-            self.cov["m5_checked"] += 1
-            if seen != new:
-                self._violation(SIG_HOOK_VER, "onCodeVersionChanged(%d, %d) ran while getCodeVersion() was %r" % (old, new, seen), None)
             got = {(o, L.name_str(orig)): (L.name_str(nm), cid) for o, orig, nm, cid in tab}
             for (o, orig) in sorted({(o, nm) for o, nm, _ in L.decls_of(spec)}):
                 want = L.expected_impl_version(spec, o, orig, new)
@@ -199,9 +208,9 @@ class Runner(object):
                         and ids[g[1]][3] == orig
                 if not ok:
                     ran = None if (g is None or g[1] is None) else ids[g[1]][2]
-                    self._violation(SIG_HOOK, "a call of %s on object %d issued from onCodeVersionChanged(%d, %d) "
+                    self._violation(sig, "a call of %s on object %d issued from %s "
                                     "(getCodeVersion()=%r) resolves to %r, newest implementation not above %d is version %r"
-                                    % (orig, o, old, new, seen, ran if g else "KeyError", new, want), None)
+                                    % (orig, o, where, seen, ran if g else "KeyError", new, want), None)
                     return
 
     def _monitor_apply(self, before, ev):
@@ -423,6 +432,7 @@ class Runner(object):
             del b.rec[:]
             for e in ev:
                 self.cov["load_ev_" + e[0]] += 1
+            self._monitor_hook(ev)
             self._emit({"op": "load", "clear": o[1]}, "apply", (ev, self._state()))
             self._monitor_table("load")
             sv = _spec_self_ver(self.specs[self.cur])
@@ -634,6 +644,8 @@ def _compare(R, out, disagreements, cov):
             for x in res["ev"]:
                 if x[0] == "verChanged" and len(x) == 5:
                     x[4] = sorted(x[4])      # the table is a dict on the real side: order is not an observation
+                if x[0] == "cbOpen" and len(x) == 4:
+                    x[3] = sorted(x[3])
             if res["ev"] != json.loads(json.dumps(ev)):
                 diff = ("apply events", res["ev"], ev)
             elif m != st:
@@ -862,7 +874,7 @@ def run(ctx):
     floors = ["ev_ran", "ev_wrongVer", "ev_verChanged", "ev_blocked", "cb_ok", "cb_discarded", "setver_tooHigh",
               "setver_tooLow", "setver_queued", "dump_made", "dump_none", "op_load", "op_compact", "mode_file", "mode_user",
               "m1_checked", "m3_checked", "m4_checked", "follower_from_dump", "follower_from_log", "load_after_switch",
-              "load_enabled_gt_self", "load_clear_kept", "load_clear_installed", "load_ev_cbOpen", "hook_calls", "m5_checked", "m6_checked", "cb_lowerVersion"] + (["ev_unknownId", "cb_keyError"] if INCLUDE_UNKNOWN_IDS else [])
+              "load_enabled_gt_self", "load_clear_kept", "load_clear_installed", "load_ev_cbOpen", "hook_calls", "m5_checked", "m6_checked", "cb_lowerVersion", "m5_load_cb_checked"] + (["ev_unknownId", "cb_keyError"] if INCLUDE_UNKNOWN_IDS else [])
     floors += ["load_self_gt_enabled", "load_installed"]
     if ctx.pid == "C11":
         floors = ["m1_checked"]
